@@ -30,6 +30,10 @@ CHECKS = {
    "crash-point enumeration: the data directory is copied before every client file operation, every mutating Store.OS call and every internal page write/truncate of a history; every image is reopened by a real Store and judged",
    "For 16 histories (first transaction, grow, shrink with post-finalise truncate, multi-segment journal, rollback after spill, all three finalisation modes, WAL transaction on a fresh and a restarted log, SQLite checkpoints of four modes, LiteFS recovery of a hot journal / WAL, drop, import, replica applying incremental LTX in both modes, replica applying a snapshot, replica applying a tombstone) x variants x geometries every crash point's disk image must reopen, recover to the position named by the newest LTX file, which must be the position before or after the operation (after, once the client's commit had returned), with the exact reference image, passing the C04/C09 monitors, no journal or WAL left, and accept a follow-up commit.",
    "Process-crash model only (completed syscalls persist; fsync omissions unobservable). SQLite simulated. Backup-restore and forwarded-commit histories are not enumerated here.", "§4 C05"),
+ "C16": ("model_checking", "E1-inputs",
+   "exhaustive enumeration of (image, target) pairs through the real /import and /export handlers and HTTP client on a 2-node cluster",
+   "Every pair of 7 targets (absent, empty, dropped, rollback-mode, WAL with un-checkpointed frames, WAL checkpointed, left-over PERSIST journal) x target page sizes x {valid images of each page size, 1/2/3/257 pages, rollback or WAL header; 13 invalid inputs} runs export -> import -> export -> replicate -> restart. Success: export equals the imported bytes except the zeroed change counter and schema cookie, exactly one new TXID, monitors pass, the replica reads the identical image through its mount. Failure: position, logical image and log listing unchanged, no Exit, restart at the same position. Export alone always equals the reference image of the current position.",
+   "Same lab as C01. A different page size on a populated or dropped database counts as 'cannot be applied'. 1 GiB lock-page images not enumerated.", "§4 C16"),
  "C17": ("model_checking", "E1-inputs",
    "exhaustive enumeration of interruption points and torn writes of simulated journals plus field-wise mutation/truncation families of journals and WALs, each opened by a real Store; differential against an independent WAL scanner",
    "Every file-operation boundary (and three torn variants of every journal write) of rollback-journal transactions of 7-8 shapes incl. multi-segment, no-sync, stale PERSIST tails and a database's very first transaction, at three or more (page, sector) geometries, is reopened by a fresh Store and must yield exactly the pre-transaction image (post-transaction once the journal was finalised). Every header/record field mutation, zeroed region and truncation class of complete journals and of WALs in both byte orders must neither panic, hang, exit, write outside the database nor open successfully with an image other than the one the position names; litefs.WALReader's accepted frame sequence must equal an independent scanner's longest valid prefix.",
